@@ -99,7 +99,7 @@ def strategy(c, names, observers, recursive_types=()):
         steps = []
         n_obj = 1
         for _ in range(draw(st.integers(1, 7))):
-            k = draw(st.sampled_from(["mut", "mut", "mut", "copy", "copy", "observe", "check"]))
+            k = draw(st.sampled_from(["mut", "mut", "mut", "copy", "copy", "observe", "check", "merge_unknown"]))
             if k == "mut" and paths:
                 i = draw(st.integers(0, len(paths) - 1))
                 steps.append({"op": "mut", "on": draw(st.integers(0, n_obj - 1)), "path": i, "alt": draw(st.integers(0, 3))})
@@ -111,6 +111,10 @@ def strategy(c, names, observers, recursive_types=()):
                 if case["msg"] in recursive_types and obs.endswith("_defaults"):
                     obs = "to_dict_camel"
                 steps.append({"op": "observe", "on": draw(st.sampled_from(["scratch", "scratch", 0] + list(range(n_obj)))), "what": obs})
+            elif k == "merge_unknown":
+                # more wire data is decoded INTO the object (parse / load merge): records of numbers the class does not know
+                steps.append({"op": "merge_unknown", "on": draw(st.integers(0, n_obj - 1)), "how": draw(st.sampled_from(["parse", "load", "load_delimited"])),
+                              "n": draw(st.integers(1, 3)), "checked_before": draw(st.booleans())})
             else:
                 steps.append({"op": "check", "on": draw(st.integers(0, n_obj - 1))})
         case["steps"] = steps
@@ -213,6 +217,28 @@ def run(c, case, observe):
                 else:
                     cp = guard("copy", copy.copy, src[0])
                 objs.append([cp, unshare(src[1]), st_["of"] if kind == "copy" else None, kind])
+            elif op == "merge_unknown":
+                i = st_["on"]
+                if i >= len(objs) or objs[i][1] is None or objs[i][0] is None:
+                    continue
+                if st_.get("checked_before") and not check(i, f"step {k} (before the merge)"):
+                    return out
+                from io import BytesIO
+
+                import betterproto
+
+                from .. import wire
+
+                used = {f.number for f in mi.fields}
+                nums = [x for x in (9999, 19, 1000, 2**28 + 1, 77, 31) if x not in used]
+                data = b"".join(wire.make_record(nums[j % len(nums)], (0, 2, 5)[j % 3], (300, b"unknown", b"\x01\x02\x03\x04")[j % 3]).raw for j in range(st_["n"]))
+                if st_["how"] == "parse":
+                    guard("merge_parse", objs[i][0].parse, data)
+                elif st_["how"] == "load":
+                    guard("merge_load", objs[i][0].load, BytesIO(data))
+                else:
+                    guard("merge_load_delimited", objs[i][0].load, BytesIO(wire.enc_varint(len(data)) + data), betterproto.SIZE_DELIMITED)
+                # the model (known fields) is unchanged; what the object encodes to grew by exactly these records
             elif op == "observe":
                 on = st_["on"]
                 target = cls() if on == "scratch" else (objs[on][0] if on < len(objs) and objs[on][0] is not None else objs[0][0])
@@ -290,6 +316,6 @@ def target(pid, c, quick=300, thorough=4000):
         return Eval(fails, nontrivial=bool(muts) and any(s_["op"] in ("check", "observe") for s_ in steps),
                     labels=[f"prog_msg:{case['msg']}"] + sorted({f"prog_op:{s_['op']}" for s_ in steps}))
 
-    names = ["Holder"] * 3 + ["Box", "Mixed", "Rec", "Repeats", "Maps", "Oneofs", "Scalars", "Optionals"]
+    names = ["Holder"] * 3 + ["Box", "Mixed", "Rec", "Repeats", "Maps", "Oneofs", "Scalars", "Scalars", "Optionals", "Leaf", "Tags"]
     return Target("inplace_histories_vs_model", ev, strategy=strategy(c, names, BASIC_OBSERVERS), quick=quick, thorough=thorough, time_quick=50,
                   rule="programs of in-place mutations / copies / observers (bytes, len, SerializeToString, dump, to_dict, ...) over one object and its copies; every object is compared - through the reference decoder, len and an independently built twin - with the tree model of its own history")
